@@ -355,7 +355,7 @@ func c19RunShutdown(b core.Batch, r *core.Recorder) {
 func c19RunPolicy(b core.Batch, r *core.Recorder) {
 	rig.QuietLogs()
 	o := rig.StartOrigin(func(w http.ResponseWriter, q *http.Request, rec *rig.OriginReq) {
-		rec.Note = q.URL.Path
+		rec.SetNote(q.URL.Path)
 		rig.ServeBody(w, 4, 1, 200, map[string]string{"Cache-Control": "no-store"})
 	})
 	defer o.Close()
